@@ -57,7 +57,7 @@ from apischema.ordering import Ordering, sort_by_order
 from apischema.schemas import Schema
 from apischema.schemas import get_schema as _get_schema
 from apischema.schemas import merge_schema
-from apischema.serialization import serialize
+from apischema.serialization import PassThroughOptions, serialize
 from apischema.serialization.serialized_methods import (
     SerializedMethod,
     get_serialized_methods,
@@ -242,9 +242,12 @@ class SchemaBuilder(
                 result["default"] = serialize(
                     field.type,
                     field.get_default(),
+                    # keys are aliased with the rest of the schema
+                    aliaser=AliasedStr,
                     fall_back_on_any=False,
                     check_type=True,
                     conversion=field.serialization,
+                    pass_through=PassThroughOptions(),
                 )
         return result
 
@@ -651,6 +654,8 @@ def _schema(
         conversion=version.conversion,
         default_conversion=converters.default_serialization,
         fall_back_on_any=True,
+        # the schema must not depend on the serialization settings of the user
+        pass_through=PassThroughOptions(),
     )
     if with_schema and version.schema is not None:
         result["$schema"] = version.schema
@@ -853,6 +858,7 @@ def definitions_schema(
             check_type=True,
             conversion=version.conversion,
             default_conversion=converters.default_serialization,
+            pass_through=PassThroughOptions(),
         )
         for ref, schema in schemas.items()
     }
